@@ -36,7 +36,7 @@ Definition model_from (c : case) : res value :=
   end.
 Definition model_arg_ok (c : case) : bool :=
   match c.(c_typed) with
-  | Some (m, _) => prim_eqb (add_types DC_TYPE_KEY m c.(c_val) (to_dict_c c.(c_val))) c.(c_arg)
+  | Some (m, _) => prim_eqb (add_types DC_TYPE_KEY TYPE_VALUE_SEP m c.(c_val) (to_dict_c c.(c_val))) c.(c_arg)
   | None => true
   end.
 
@@ -49,6 +49,7 @@ Definition model_ok (c : case) : bool :=
   && Bool.eqb (json_ok p) c.(c_json)
   && Bool.eqb (safe_dump_ok p) c.(c_yaml)
   && model_arg_ok c
+  && Bool.eqb (prim_eqb (from_dict_arg_after FROM_DICT_POP DC_TYPE_KEY c.(c_arg)) c.(c_arg)) c.(c_arg_ok)
   && res_vsame (model_from c) c.(c_from)
   && res_vsame (model_from c) c.(c_from2).
 
